@@ -207,6 +207,28 @@ theorem queue_complete (prod : List (List Job)) (ht : tagged prod) (acts : List 
   rw [hdone i, List.append_nil] at this
   rw [hs]; exact this
 
+/-- **every queued job is sent.**  From every reachable state of the queue (any producers, any
+    schedule so far, the pump stopped at any of its program points), once the producers stop
+    appending, three pump steps per queued job are enough to empty the queue, whatever the pump
+    was doing when they stopped: everything appended has then been run, in the order of the
+    `append` calls, and nothing is run that was not appended.  The pump's wait between two
+    looks at the queue is a bounded sleep, not a wait for a signal, so no wake-up can be lost. -/
+theorem queue_drains (prod : List (List Job)) (ht : tagged prod) (acts : List QAct) (k : Nat)
+    (hk : 3 * (qrun (qinit prod) acts).queue.length ≤ k) :
+    let q := qrun (qinit prod) (acts ++ pumps k)
+    q.queue = [] ∧ q.sent = (qrun (qinit prod) acts).appended ∧ q.raised = false := by
+  intro q
+  have h := qinv_run prod acts (qinit prod) (qinv_init prod ht)
+  obtain ⟨d1, d2, d3, _⟩ := pump_drains (qrun (qinit prod) acts) h.noRaise h.popOk k hk
+  have e : q = qrun (qrun (qinit prod) acts) (pumps k) := qrun_append _ _ _
+  rw [e]
+  exact ⟨d1, by rw [d3, h.fifo], d2⟩
+
+/-- the hypothesis is satisfiable and the conclusion is not empty: two producers, one job still
+    queued and the pump asleep when they stop; three more pump steps send it -/
+example : (qrun (qinit [[(0, 7)], [(1, 8)]]) ([.produce 0, .pump, .pump, .pump, .pump, .produce 1] ++ pumps 3)).sent
+    = [(0, 7), (1, 8)] := by decide
+
 /-! ### Neighbouring races the model exhibits (outside the statement of C16, reported) -/
 
 /-- `Transport.disconnect` has the same test-then-use window as the old `send`: a loss between
